@@ -156,6 +156,12 @@ class TrapInstance:
 trap_instance = TrapInstance()
 class Holder:
     fn = staticmethod(trap); Exc = ModLevel; inst = trap_instance
+class TrapMixin:          # a non-exception base class of an exception class: it must never be instantiated from a stored payload either
+    def __init__(self, *a): TRAPPED.append(('TrapMixin', a))
+class MixedError(TrapMixin, Exception):
+    def __init__(self, first, second, third): Exception.__init__(self, first, second, third)          # rejects the stored argument tuples used below
+class PickyError(Exception):
+    def __init__(self, *, only_keywords): Exception.__init__(self, only_keywords)                     # rejects every positional argument tuple
 
 def gate():
     from taskiq.serialization import ExceptionRepr, exception_to_python
@@ -164,7 +170,7 @@ def gate():
     me = __name__ if __name__ in sys.modules else '__main__'
     sys.modules.setdefault('ser_replay_driver', sys.modules[me]); me = 'ser_replay_driver'
     names = [('os', 'system'), ('builtins', 'eval'), ('builtins', 'dict'), ('builtins', 'print'), ('subprocess', 'Popen'), (me, 'trap'), (me, 'TrapClass'), (me, 'trap_instance'), (me, 'Holder.fn'), (me, 'Holder.inst'),
-             (me, 'Holder'), ('sys', 'modules'), ('os', 'path'), (me, 'Holder.Exc'), (me, 'ModLevel'), ('builtins', 'ValueError'), ('builtins', 'KeyboardInterrupt'), (me, 'NoSuchThing'), ('no.such.module', 'Boom'),
+             (me, 'Holder'), ('sys', 'modules'), ('os', 'path'), (me, 'Holder.Exc'), (me, 'ModLevel'), (me, 'MixedError'), (me, 'PickyError'), ('builtins', 'ValueError'), ('builtins', 'KeyboardInterrupt'), (me, 'NoSuchThing'), ('no.such.module', 'Boom'),
              ('json.tool', 'main'), ('antigravity', 'geohash'), ('this', 's'), (None, 'Whatever'), ('builtins', 'ValueError.mro'), ('builtins', 'type')]
     fails = []; n = 0
     for mod, typ in names:
@@ -187,7 +193,7 @@ def gate():
                     if not isinstance(res, BaseException): pr.append(f"C20: loading ({mod}, {typ}) produced {type(res).__name__}, not an exception")
                     else:
                         leaf_res = res if nesting == 'root' else (res.__cause__ if nesting == 'cause' else res.__context__)
-                        resolves_to_exc = (mod, typ) in ((me, 'Holder.Exc'), (me, 'ModLevel'), ('builtins', 'ValueError'), ('builtins', 'KeyboardInterrupt'))
+                        resolves_to_exc = (mod, typ) in ((me, 'Holder.Exc'), (me, 'ModLevel'), (me, 'MixedError'), (me, 'PickyError'), ('builtins', 'ValueError'), ('builtins', 'KeyboardInterrupt'))
                         unresolvable = mod is None or (mod, typ) in ((me, 'NoSuchThing'), ('no.such.module', 'Boom'), ('json.tool', 'main'), ('antigravity', 'geohash'), ('this', 's'))
                         if unresolvable and isinstance(leaf_res, BaseException) and type(leaf_res).__name__ != typ: pr.append(f"C20: unresolvable type ({mod}, {typ}) did not yield a synthetic class of that name but {type(leaf_res).__name__}")
                 if pr: fails.append({'key': f"{mod}:{typ}@{nesting}", 'config': {'module': mod, 'type': typ, 'args': list(args), 'level': nesting}, 'failed_clauses': pr[:3]})
